@@ -48,6 +48,8 @@ M=[
  (S+'c03i_spec.go','{"rpc request type", func(s *vbsSchema) { s.method.in = "i2" }, []string{"RPC_SAME_REQUEST_TYPE"}},','{"rpc request type", func(s *vbsSchema) { s.method.in = "i2" }, []string{"RPC_SAME_RESPONSE_TYPE"}},','C03','C03-I.spec-scenarios','quick'),
  (S+'c03i_spec.go','{"int32 -> int64", func(s *vbsSchema) {\n\t\ts.f.fd.kind, s.f.typ = protoreflect.Int64Kind, descriptorpb.FieldDescriptorProto_TYPE_INT64\n\t}, []string{"FIELD_SAME_TYPE", "FIELD_WIRE_JSON_COMPATIBLE_TYPE"}},','{"int32 -> int64", func(s *vbsSchema) {\n\t\ts.f.fd.kind, s.f.typ = protoreflect.Int64Kind, descriptorpb.FieldDescriptorProto_TYPE_INT64\n\t}, []string{"FIELD_SAME_TYPE"}},','C03','C03-I.spec-scenarios','quick'),
  (S+'c03i_spec.go','{"close enum", func(s *vbsSchema) { s.enum.closed = true }, []string{"ENUM_SAME_TYPE"}},','','C03','C03-I.scenario-coverage','quick'),
+ (H+'c03j.go','return false, uint64(uint32(x))','return false, uint64(uint32(x)) &^ 1','C03','C03-J.integer-defaults','quick'),
+ (H+'c03c.go','f := &vField{number: 1, name: "f", proto3Optional: verifNondetBool()}\n\t\tswitch verifNondetChoice(3) {\n\t\tcase 0:\n\t\t\treturn f, false, ""','f := &vField{number: 1, name: "f", proto3Optional: verifNondetBool()}\n\t\tswitch verifNondetChoice(3) {\n\t\tcase 0:\n\t\t\treturn f, f.proto3Optional, ""','C03','C03-C.field-oneof','quick'),
 ]
 def reset():
     if os.path.exists(ROOT): shutil.rmtree(ROOT)
